@@ -859,6 +859,8 @@ class Executor(Exec):
             v = args[0]
             if isinstance(v, SObj) and v._cls:
                 return ClassRef(v._cls)
+            if isinstance(v, SObj):
+                return _Builtin("<one of " + "|".join(v._cls_set) + ">")  # only its __name__ (a message text) can be taken
             if v is None:
                 return _Builtin("NoneType")
             if isinstance(v, bool):
@@ -1127,6 +1129,8 @@ class Executor(Exec):
                 not isinstance(x, str) for x in args[0]):
             return FStr(("join", recv, len(args[0])) + (None,) * len(args[0]), list(args[0]))
         if isinstance(recv, str):
+            if name == "join" and len(args) == 1 and isinstance(args[0], (list, tuple)) and all(isinstance(x, str) for x in args[0]):
+                return recv.join(args[0])
             if all(isinstance(a, (str, int, tuple)) for a in args) and name in (
                 "startswith", "endswith", "lower", "upper", "strip", "split", "replace", "join", "format", "lstrip", "rstrip", "isdigit"):
                 return getattr(recv, name)(*args)
